@@ -184,30 +184,9 @@ impl MT104 {
         let field_30 = parser.parse_field::<Field30>("30")?;
         let field_51a = parser.parse_optional_field::<Field51A>("51A")?;
 
-        // Parse optional ordering parties - check variant to determine field type
-        let mut instructing_party = None;
-        let mut creditor = None;
-
-        // Check if field 50 exists and determine its type based on the variant
-        if let Some(variant) = parser.peek_field_variant("50") {
-            match variant.as_str() {
-                "C" | "L" => {
-                    // These variants are for Field50InstructingParty
-                    instructing_party =
-                        parser.parse_optional_variant_field::<Field50InstructingParty>("50")?;
-                }
-                "A" | "K" => {
-                    // These variants are for Field50Creditor
-                    creditor = parser.parse_optional_variant_field::<Field50Creditor>("50")?;
-                }
-                _ => {
-                    // Any other option is not allowed for field 50 here: report it
-                    // (the parser rejects a value that does not belong to the option read)
-                    instructing_party =
-                        parser.parse_optional_variant_field::<Field50InstructingParty>("50")?;
-                }
-            }
-        }
+        // Field 50a instructing party (C, L) and field 50a creditor (A, K): either, both or none
+        let (instructing_party, creditor) =
+            parse_instructing_party_and::<Field50InstructingParty, Field50Creditor>(&mut parser)?;
 
         let field_52 = parser.parse_optional_variant_field::<Field52CreditorBank>("52")?;
         let field_26t = parser.parse_optional_field::<Field26T>("26T")?;
@@ -227,30 +206,9 @@ impl MT104 {
             let field_21e_tx = parser.parse_optional_field::<Field21E>("21E")?;
             let field_32b = parser.parse_field::<Field32B>("32B")?;
 
-            // Transaction-level optional parties - check variant to determine field type
-            let mut instructing_party_tx = None;
-            let mut creditor_tx = None;
-
-            // Check if field 50 exists and determine its type based on the variant
-            if let Some(variant) = parser.peek_field_variant("50") {
-                match variant.as_str() {
-                    "C" | "L" => {
-                        // These variants are for Field50InstructingParty
-                        instructing_party_tx =
-                            parser.parse_optional_variant_field::<Field50InstructingParty>("50")?;
-                    }
-                    "A" | "K" => {
-                        // These variants are for Field50Creditor
-                        creditor_tx =
-                            parser.parse_optional_variant_field::<Field50Creditor>("50")?;
-                    }
-                    _ => {
-                        // Any other option is not allowed for field 50 here: report it
-                        instructing_party_tx =
-                            parser.parse_optional_variant_field::<Field50InstructingParty>("50")?;
-                    }
-                }
-            }
+            // Transaction-level field 50a instructing party (C, L) and creditor (A, K)
+            let (instructing_party_tx, creditor_tx) =
+                parse_instructing_party_and::<Field50InstructingParty, Field50Creditor>(&mut parser)?;
 
             let field_52_tx = parser.parse_optional_variant_field::<Field52CreditorBank>("52")?;
             let field_57 = parser.parse_optional_variant_field::<Field57DebtorBank>("57")?;
